@@ -843,6 +843,10 @@ func (vc *VC) makeIface(st *State, v Val, t types.Type) *IfaceV {
 			data = Ite(x, IntC(1), IntC(0))
 		case x.Sort.Kind == SBV:
 			data = BV2Nat(x)
+			if !x.IsConst {
+				// what a specification reads back with dynval() is the boxed value itself
+				vc.addGlobalFact(Eq(App(fmt.Sprintf("int2bv.%d", x.Sort.Width), BVSort(x.Sort.Width), data), x))
+			}
 		default:
 			data = App("box:"+x.Sort.String(), IntSort, x)
 			vc.addGlobalFact(Eq(App("unbox:"+x.Sort.String(), x.Sort, data), x))
